@@ -100,7 +100,7 @@ def lang_world(quick):
     atoms = [m(["a"], "==", "1"), m(["foo", "bar"], "!=", "x y"), m(["a", "0", "b c"], "in", "v1.2"), m(["m", "a/b"], "notin", "-3"),
              m(["x"], "empty"), m(["x", "007"], "notempty"), m(["s"], "matches", "^a\\.b$"), m(["s", "a~b"], "notmatches", "1.5"),
              m(["k"], "==", "/usr/bin"), m(["v", "id"], "==", "hello world")]
-    atoms = [atoms[1], atoms[2], atoms[4]] if quick else [atoms[i] for i in (1, 2, 4, 6, 7)]
+    atoms = [atoms[1], atoms[2], atoms[4]] if quick else [atoms[i] for i in (1, 2, 4, 6)]
     colls = [{"op": "any", "sel": {"ty": "bexpr", "path": ["xs"]}, "mode": "default", "n1": "v", "n2": ""},
              {"op": "all", "sel": {"ty": "bexpr", "path": ["m", "ys"]}, "mode": "both", "n1": "k", "n2": "v"},
              {"op": "any", "sel": {"ty": "bexpr", "path": ["xs", "0"]}, "mode": "index", "n1": "k", "n2": ""},
@@ -122,7 +122,7 @@ def lang_world(quick):
     if not quick:
         allst = [{"ws": w, "paren": p, "lit": l, "sel": s_, "cont": c, "dneg": d} for w in dims["ws"] for p in dims["paren"] for l in dims["lit"]
                  for s_ in dims["sel"] for c in dims["cont"] for d in dims["dneg"] if not (d and p == 2)]
-        styles += random.Random(7).sample(allst, 15)
+        styles += random.Random(7).sample(allst, 8)
     else:
         styles += [{"ws": "tight", "paren": 1, "lit": "raw", "sel": "ptr", "cont": True, "dneg": 0}, {"ws": "wide", "paren": 0, "lit": "bare", "sel": "br", "cont": True, "dneg": 2},
                    {"ws": "tight", "paren": 2, "lit": "dq", "sel": "bt", "cont": False, "dneg": 0}]
@@ -146,7 +146,7 @@ def main():
     with open(os.path.join(wd, "styles.json"), "w") as fh:
         json.dump(styles, fh)
     rows = json.loads(vlib.harness(["render", "-exprs", os.path.join(wd, "trees.json"), "-styles", os.path.join(wd, "styles.json")]).stdout)
-    cap = 4000 if quick else 8000
+    cap = 4000 if quick else 6000
     seeds, expect, meta = [], [], []
     for r in rows:
         s = pegrun.syms(r["text"])
@@ -158,7 +158,7 @@ def main():
         seeds.append(s)
         expect.append(t)
         meta.append((r["i"], r["style"], r["text"]))
-    keep = 800 if quick else 5000
+    keep = 800 if quick else 2000
     if len(seeds) > keep:
         idx = sorted(rnd.sample(range(len(seeds)), keep))
         seeds, expect, meta = [seeds[i] for i in idx], [expect[i] for i in idx], [meta[i] for i in idx]
